@@ -7,18 +7,18 @@ H = []
 QUICK = {
     "C01": ["fub_poll_c2", "fub_poll_c2_inflight", "fub_poll_c2_handles", "fub_wake_c2", "fub_wake_c2_inflight", "fub_push_c2", "fub_poll_budget", "fub_poll_budget_many", "mb_poll_c2", "fu_cur_12_c1", "wl_fifo_c2"],
     "C02": ["fub_poll_c2", "fub_push_c2", "fu_poll_2", "fu_push_12", "fob_poll_c2", "fu_cur_12_c1", "fu_cur_12_c0", "sm_step_c3"],
-    "C04": ["fob_poll_c2", "fob_poll_c2_p0", "fob_push_c2", "fo_observe_c2", "ad_bo_n2_p0", "ja_poll_n2"],
+    "C04": ["fob_poll_c2", "fob_poll_c2_p0", "fob_push_c2", "fo_observe_c2", "ad_bo_n2_p0", "ja_poll_n2", "ctor_fub_from_iter"],
     "C05": ["fub_poll_c2", "mb_poll_c2", "ja_poll_n2", "fub_poll_c2_handles"],
     "C06": ["fub_drop_c2", "ja_poll_n2", "tja_poll_n2", "mb_poll_c2", "fob_drop_c2"],
     "C07": ["ja_poll_n2", "tja_poll_n2"],
     "C08": ["fub_poll_c2", "fu_poll_2", "fu_push_12", "fu_push_2", "fu_cur_12_c0", "mu_push_12"],
     "C09": ["ad_bu_n2", "ad_bu_n3", "ad_tbu_n2", "ad_fe_n1", "ad_bo_n2_p0"],
     "C10": ["ad_bu_n2", "ad_tbu_n2", "ad_fe_n1", "ad_fe_n0", "ad_bo_n2_p0", "ad_bo_n2"],
-    "C11": ["mb_poll_c2", "mu_poll_12_c0", "mu_poll_12_c1", "mu_push_12"],
+    "C11": ["mb_poll_c2", "mu_poll_12_c0", "mu_poll_12_c1", "mu_push_12", "ctor_mb_from_iter"],
     "C12": ["fub_poll_c2", "fub_wake_c2", "fub_push_c2", "mb_poll_c2", "fub_poll_budget_61"],
     "C13": ["fub_poll_c2", "fub_poll_budget", "fub_poll_budget_61", "fub_poll_budget_many", "mu_poll_12_c0", "mu_poll_12_c1", "fu_poll_2"],
     "C14": ["fub_poll_c2_quiet", "fub_wake_c2", "fub_push_c2", "fub_drop_c2", "fu_cur_12_c0", "fub_poll_budget_61"],
-    "C15": ["fub_poll_c2", "fub_push_c2", "fub_push_c0", "fob_push_c2", "fob_new", "fo_new", "fu_push_12", "sm_step_c3"],
+    "C15": ["fub_poll_c2", "fub_push_c2", "fub_push_c0", "fob_push_c2", "fob_new", "fo_new", "fu_push_12", "sm_step_c3", "ctor_fub_from_iter", "ctor_fu_0", "ctor_fu_2"],
     "C16": ["ad_bo_n2", "ad_tbo_n2"],
     "C17": ["fub_poll_c2", "fob_poll_c2", "fo_observe_c2", "ad_bu_n2", "ad_tbu_n2", "ad_bo_n2"],
     "C03": ["wl_shape0_c2", "wl_shape1_c2", "wl_shape2_c2", "wl_shape3_c2", "wl_fifo_c2", "wl_layout"],
@@ -88,6 +88,16 @@ h("reach_fub_c2_s3", ["C01", "C02", "C12"], T, unwind=5, timeout=1200, covers=["
   what="history witness through the PUBLIC API: FuturesUnorderedBounded::new(2), then 3 symbolic operations out of {try_push, poll_next with a symbolic task waker, wake of a retained (possibly stale) child waker}; after every operation the state satisfies INV (I1..I4) - the invariant the step harnesses assume is not too strong",
   bounds="capacity 2; 3 operations; <=1 self-wake")
 
+# ---------------------------------------------------------------- constructors (public API)
+h("ctor_fub_from_iter", ["C15", "C02", "C04", "C01"], QT, covers=["cover:three", "cover:zero"],
+  what="FuturesUnorderedBounded::from_iter of n futures (n symbolic, 0..=3): capacity = len = n, slot i holds input i, all marked ready in input order, INV holds, a further try_push is refused and returns the same future",
+  bounds="n <= 3")
+h("ctor_fob_from_iter", ["C04", "C15"], T, unwindset=FOB_US if False else {"FuturesOrderedBounded.*poll_next#2": 3, "poll_inner_no_remove#0": 4, "binary_heap": 3}, timeout=1200,
+  covers=["cover:first_yield"], what="FuturesOrderedBounded::from_iter of 2 futures: positions 0,1 in input order; the first output yielded is input 0's", bounds="2 futures")
+h("ctor_fu_0", ["C15", "C02", "C14"], QT, covers=["cover:cap0"], what="FuturesUnordered::with_capacity(0): empty, capacity 0, Ready(None), no task wake", bounds="n = 0")
+h("ctor_fu_2", ["C15", "C02", "C14"], QT, what="FuturesUnordered::with_capacity(2): empty, capacity 2, one group, Ready(None), no task wake", bounds="n = 2")
+h("ctor_mb_from_iter", ["C11"], QT, what="MergeBounded::from_iter of 2 sources: both held and marked ready in input order", bounds="2 sources")
+
 # ---------------------------------------------------------------- Layer S: the slot map by itself
 W_SM = ("PinSlotMap<u8>: ONE insert / remove / get with an arbitrary key (also out of range) from an arbitrary valid representation state "
         "(any occupancy, any free-list order); the representation invariant is re-established, no other slot is disturbed")
@@ -107,12 +117,10 @@ h("fu_poll_12_quiet", ["C14"], T, timeout=1800, mem=16, covers=["cover:pending_t
 W_CUR = W_FU + "; only the listed groups have queued children (the others answer Pending at once): cursor / group-list logic at low cost"
 h("fu_cur_12_c1", ["C01", "C02", "C13", "C14", "C18", "C08"], QT, timeout=1500, covers=["cover:yield", "cover:pending_two_groups"], what=W_CUR, bounds="capacities (1,2); cursor 1; <=1 queued child per group; no self-wake")
 h("fu_cur_12_c0", ["C01", "C02", "C13", "C14", "C18", "C08"], QT, timeout=1500, covers=["cover:yield", "cover:pending_two_groups", "cover:none_two_groups"], what=W_CUR, bounds="capacities (1,2); cursor 0; <=1 queued child per group; no self-wake")
-h("fu_cur_124_c0", ["C18", "C02", "C01", "C08"], T, unwind=7, timeout=2400, mem=30, covers=["cover:yield"], what=W_CUR, bounds="THREE groups, capacities (1,2,4); cursor 0; only group 0 has a queued child")
 W_ROT = ("FuturesUnordered<Fut> with THREE groups (1,2,4) in concrete inner states (one drained group at the cursor, one sleeping child in each other group): ONE poll_next; "
          "the drained group is discarded, the others keep their order by capacity (the largest stays last and is never discarded), rem / cursor stay consistent")
 h("fu_rot_124_c0", ["C18", "C02", "C13", "C15"], QT, unwind=7, covers=["cover:group_discarded"], what=W_ROT, bounds="groups (1,2,4); cursor 0 = the drained smallest group")
 h("fu_rot_124_c1", ["C18", "C02", "C13", "C15"], QT, unwind=7, covers=["cover:group_discarded"], what=W_ROT, bounds="groups (1,2,4); cursor 1 = the drained middle group")
-h("fu_cur_124_c2", ["C18", "C02", "C01"], T, unwind=7, timeout=2400, mem=30, covers=["cover:yield"], what=W_CUR, bounds="three groups (1,2,4); cursor 2; only the last group has a queued child")
 W_FUP = "FuturesUnordered<Fut>: ONE push from an arbitrary INV_unbounded pre-state (last group full -> new group of twice the capacity)"
 h("fu_push_12", ["C15", "C02", "C08", "C18", "C01", "C12", "C14"], QT, covers=["cover:push_new_group", "cover:push_last_group"], what=W_FUP, bounds="capacities (1,2)")
 h("fu_push_2", ["C15", "C02", "C08", "C18"], QT, covers=["cover:push_new_group", "cover:push_last_group"], what=W_FUP, bounds="one group of capacity 2")
@@ -165,6 +173,10 @@ h("ad_bu_n2", ["C09", "C10", "C17", "C01", "C02", "C18"], QT, unwindset=AD_US, c
   what="buffered_unordered(2): " + W_AD, bounds="n=2; <=2 upstream items remaining")
 h("ad_bu_n3", ["C09", "C10", "C17"], QT, unwind=7, unwindset={POLL: 6}, timeout=1500, mem=12, covers=["cover:item", "cover:pending", "cover:end"],
   what="buffered_unordered(3): " + W_AD, bounds="n=3; <=3 upstream items remaining")
+h("ad_bo_n1", ["C16", "C09", "C10", "C17"], T, unwindset=BO_US if False else {"poll_inner_no_remove#0": 5, "FuturesOrderedBounded.*poll_next#2": 3, "binary_heap": 3}, timeout=1200, covers=["cover:item", "cover:pending", "cover:end"],
+  what="buffered_ordered(1): " + W_AD, bounds="n=1")
+h("ad_tbu_n1", ["C09", "C10", "C17"], T, unwindset={"poll_inner_no_remove#0": 5}, covers=["cover:item", "cover:pending", "cover:end"],
+  what="try_buffered_unordered(1): " + W_AD, bounds="n=1")
 h("ad_bu_n1", ["C09", "C10", "C17"], T, unwindset=AD_US, covers=["cover:item", "cover:pending", "cover:end"],
   what="buffered_unordered(1): " + W_AD, bounds="n=1; <=1 self-wake")
 h("ad_tbu_n2", ["C09", "C10", "C17", "C18"], QT, unwindset=AD_US, covers=["cover:item", "cover:pending", "cover:end", "cover:upstream_err_keeps_inflight"],
@@ -213,6 +225,14 @@ h("wl_shape3_c2", ["C03", "C14"], QT, layer="real", checks="memsafe", unwind=4, 
 h("wl_layout", ["C03"], QT, layer="real", unwind=4, covers=["cover:cap0", "cover:cap_max"],
   what="layout arithmetic of the REAL waker list for EVERY capacity 0..=2^32 (symbolic): header, every slot 0..=cap (the last is the queue's stub node) lie inside the allocated block, aligned, without overlapping the header; the header-pointer recovery is the inverse of the slot address",
   bounds="capacity <= 2^32 (symbolic word), slot index symbolic")
+RS_US = dict(WL_US)
+RS_US["poll_inner_no_remove#0"] = 4
+W_RS = ("the REAL stack end to end under Kani with memory-safety checks ON: FuturesUnorderedBounded::new(1) over the real waker_list.rs / cordyceps / diatomic-waker / spin; push; "
+        "poll_next with a symbolic child answer (ready / pending / pending + self-wake) and a symbolic task waker; drop: outcome, task wakes, drops and the release of the shared block")
+h("wl_real_stack_1", ["C03", "C01", "C02", "C05", "C14"], T, layer="real", checks="memsafe", unwind=4, unwindset=RS_US, timeout=2400, mem=20,
+  covers=["cover:yielded", "cover:not_yielded"], what=W_RS, bounds="capacity 1, ONE poll")
+h("wl_real_stack_2", ["C03"], T, layer="real", checks="memsafe", unwind=4, unwindset=RS_US, timeout=3600, mem=28,
+  covers=["cover:yielded", "cover:not_yielded"], what=W_RS + " (two polls, the task waker may change in between)", bounds="capacity 1, TWO polls")
 h("wl_shape0_c1", ["C03"], T, layer="real", checks="memsafe", unwind=4, unwindset=WL_US, timeout=1500, mem=14, covers=["cover:end"], what=W_WL + W_SH, bounds="capacity 1")
 h("wl_shape0_c3", ["C03"], T, layer="real", checks="memsafe", unwind=5, unwindset=WL_US, timeout=2400, mem=20, covers=["cover:end"], what=W_WL + W_SH, bounds="capacity 3")
 h("wl_shape2_c3", ["C03"], T, layer="real", checks="memsafe", unwind=5, unwindset=WL_US, timeout=2400, mem=20, covers=["cover:end"], what=W_WL + W_SH, bounds="capacity 3")
